@@ -368,6 +368,10 @@ class _FakeSock:
         return out
 
     def recvfrom(self, n=65536, flags=0):
+        # (datagram flavour: every datagram comes from another source port - a peer that opens a socket per write)
+        if self.dgram:
+            self.sent = getattr(self, 'sent', 0) + (0 if flags else 1)
+            return (self.recv(n, flags), ('127.0.0.1', 40000 + self.sent % 20000))
         return (self.recv(n, flags), ('127.0.0.1', 1))
 
     def recv_into(self, buf, nbytes=0, flags=0):
@@ -376,7 +380,9 @@ class _FakeSock:
         return len(d)
 
     def recvfrom_into(self, buf, nbytes=0, flags=0):
-        return (self.recv_into(buf, nbytes, flags), ('127.0.0.1', 1))
+        d, addr = self.recvfrom(nbytes or len(buf), flags)
+        buf[:len(d)] = d
+        return (len(d), addr)
 
     def shutdown(self, how):
         pass
@@ -1104,15 +1110,37 @@ def run_tracker_reentrant(ordered, ttl, mode, ops):
             note = 'handler-raised'
         stale = [] if tr.ttl_in_seconds is None else \
             sorted(t.mmsi for t in tr.tracks if not (CLOCK.t - t.last_updated < tr.ttl_in_seconds))
-        out.append('%s[%s]%s {%s} stale=%s' % (p[0], ','.join(evs), note, ' '.join(str(t.mmsi) for t in tr.tracks),
-                                              ','.join(map(str, stale)) or '-'))
+        # what n_latest_tracks says right now, held against the tracks the tracker shows
+        nl = '-'
+        try:
+            ts_ = list(tr.tracks)
+            lus = {t.mmsi: t.last_updated for t in ts_}
+            for n_ in range(0, len(ts_) + 2):
+                r_ = [t.mmsi for t in tr.n_latest_tracks(n_)]
+                left = [m_ for m_ in lus if m_ not in r_]
+                if len(r_) != min(n_, len(ts_)) or len(set(r_)) != len(r_) or any(m_ not in lus for m_ in r_) or \
+                        (r_ and left and max(lus[m_] for m_ in left) > min(lus[m_] for m_ in r_)) or \
+                        (not ordered and [lus[m_] for m_ in r_] != sorted((lus[m_] for m_ in r_), reverse=True)):
+                    nl = 'n_latest_tracks(%d)=%s;tracks=%s' % (n_, '/'.join(map(str, r_)),
+                                                               '/'.join('%d@%s' % (m_, show_time(lus[m_])) for m_ in lus))
+                    break
+        except Exception as e:  # noqa
+            nl = 'n_latest_tracks-raised-' + type(e).__name__
+        out.append('%s[%s]%s {%s} stale=%s nl=%s' % (p[0], ','.join(evs), note, ' '.join(str(t.mmsi) for t in tr.tracks),
+                                                    ','.join(map(str, stale)) or '-', nl.replace(' ', '')))
         del evs[:]
     return ' ; '.join(out)
 
 
 class _Gone:
+    """a subscriber that lives only through its subscription: the object is created, its bound method registered, and
+    the last reference of the caller dropped - it keeps being notified (it counts the calls in a list it shares)"""
+
+    def __init__(self, counter=None):
+        self.counter = counter if counter is not None else [0]
+
     def handle(self, track):
-        pass
+        self.counter[0] += 1
 
 
 def run_tracker(ordered, ttl, ops):
@@ -1131,7 +1159,8 @@ def run_tracker(ordered, ttl, ops):
         tr = TR.AISTracker(ttl_in_seconds=ttl, stream_is_ordered=ordered)
     # a subscriber that registered a bound method and has since gone out of scope, in front of the observers
     # (each of its registrations sits directly in front of the observer's registration for the same event)
-    gone = _Gone()
+    gone_calls = [0]
+    gone = _Gone(gone_calls)
     evs = []
     tr.register_callback(TR.AISTrackEvent.CREATED, gone.handle)
     tr.register_callback(TR.AISTrackEvent.CREATED, lambda t: evs.append(('C', t.mmsi)))
@@ -1209,6 +1238,9 @@ def run_tracker(ordered, ttl, ops):
             del inside[:]
         elif calls[0] != total[0]:
             evs.append(('OBSERVER-CALLED-%d-TIMES-FOR-%d-EVENTS-' % (calls[0], total[0]), 0))
+        elif gone_calls[0] != total[0]:
+            evs.append(('OBSERVER-CALLED-%d-TIMES-FOR-%d-EVENTS-(a-subscriber-nobody-else-refers-to)-' % (gone_calls[0], total[0]), 0))
+            gone_calls[0] = total[0]
         elif third != third_exp:
             evs.append(('OBSERVER-CALLED-%s-EXPECTED-%s-' % (sorted(third.items()), sorted(third_exp.items())), 0))
             third_exp.update(third)
@@ -1280,7 +1312,92 @@ def run_tracker(ordered, ttl, ops):
                 out.append('u%s %s' % (err(e), state()))
         else:
             out.append('BAD-OP')
+    if len(ops) <= 120 and zlib.crc32(' '.join(ops).encode()) % 3 == 0 and not any(o.startswith('OBSERVER') for o in out):
+        diff = _tracker_copies(ordered, ttl, ops)
+        if diff:
+            out[-1] = diff if out else diff
     return ' ; '.join(out)
+
+
+def _tracker_copies(ordered, ttl, ops):
+    """Copies of a tracker are trackers.  A tracker without subscribers is run through the first half of the history and
+    copied: the deep copy is taken through the second half next to the original and must end in the same state; the
+    shallow copy is left alone while the original goes on, and whatever it then shows must still be consistent in
+    itself (n_latest_tracks against its own tracks).  Returns a marker line or None."""
+    import copy
+    CLOCK.t = 0.0
+    TIME_SCALE[0] = 1
+    tr = TR.AISTracker(ttl_in_seconds=ttl, stream_is_ordered=ordered)
+    others = []
+    half = len(ops) // 2
+
+    def apply(t, k, p):
+        try:
+            if p[0] == 'c':
+                t.cleanup()
+            elif p[0] == 'p':
+                t.pop_track(int(p[1]))
+            elif p[0] == 'l':
+                t.ttl_in_seconds = None if p[1] == 'N' else int(p[1])
+            elif p[0] == 'n':
+                t.n_latest_tracks(int(p[1]))
+            elif p[0] == 'u':
+                sn = DEC._assemble_messages(unhx(p[1]))
+                if p[2] != 'N' and TIME_SCALE[0] == 1 and p[2].lstrip('-').isdigit() and int(p[2]) > 2 ** 53:
+                    t.update(sn, int(p[2]))
+                else:
+                    t.update(sn, None if p[2] == 'N' else float(p[2]) / TIME_SCALE[0])
+        except Exception as e:  # noqa
+            return type(e).__name__
+        return None
+
+    def show(t):
+        return sorted((x.mmsi, x.last_updated) for x in t.tracks)
+
+    def nlatest_ok(t):
+        ts = list(t.tracks)
+        lus = {x.mmsi: x.last_updated for x in ts}
+        for n in range(0, len(ts) + 2):
+            r = [x.mmsi for x in t.n_latest_tracks(n)]
+            left = [m for m in lus if m not in r]
+            if len(r) != min(n, len(ts)) or len(set(r)) != len(r) or any(m not in lus for m in r) or \
+                    (r and left and max(lus[m] for m in left) > min(lus[m] for m in r)):
+                return 'n_latest_tracks(%d) = %s of tracks %s' % (n, r, sorted(lus.items(), key=lambda kv: kv[1]))
+        return None
+
+    shallow = None
+    for k, op in enumerate(ops):
+        p = op.split(':')
+        if k == half:
+            try:
+                others = [copy.deepcopy(tr)]
+                shallow = copy.copy(tr)
+            except Exception as e:  # noqa
+                return 'RESULT-DEPENDS-ON-EARLIER-RESULT copying a tracker raised ' + err(e)
+        if p[0] == 't':
+            CLOCK.t = float(p[1]) / TIME_SCALE[0]
+            continue
+        if p[0] == 's':
+            TIME_SCALE[0] = int(p[1])
+            continue
+        r0 = apply(tr, k, p)
+        for o in others:
+            r1 = apply(o, k, p)
+            if r1 != r0:
+                return ('RESULT-DEPENDS-ON-EARLIER-RESULT a deep copy of the tracker answers operation %d (%s) with %s, the '
+                        'original with %s' % (k, op[:20], r1, r0))
+    try:
+        for o in others:
+            if show(o) != show(tr):
+                return ('RESULT-DEPENDS-ON-EARLIER-RESULT a deep copy of the tracker (taken after operation %d) ends with '
+                        'tracks %s, the original with %s' % (half, show(o)[:6], show(tr)[:6]))
+        for name, t in [('deep copy', o) for o in others] + ([('shallow copy', shallow)] if shallow is not None else []):
+            bad = nlatest_ok(t)
+            if bad:
+                return 'RESULT-DEPENDS-ON-EARLIER-RESULT the %s of the tracker (taken after operation %d): %s' % (name, half, bad)
+    except Exception as e:  # noqa
+        return 'RESULT-DEPENDS-ON-EARLIER-RESULT asking a copy of the tracker raised ' + err(e)
+    return None
 
 
 # ------------------------------------------------------------------------------------------------
@@ -1394,6 +1511,15 @@ def run_chain(fspec, lines):
     again = _try(lambda: '[' + ','.join(str(IDX[id(m)]) for m in chain.filter(list(elems))) + ']')
     if again != res:
         return 'READERS-DIFFER chain-first-stream=%s same-chain-second-stream=%s' % (res, again)
+    # a stream that delivers nothing (an empty log, noise only, a message that never completes) gives nothing
+    for what, empty in (('an empty list', lambda: []), ('an exhausted iterator', lambda: iter(())),
+                        ('a reader that delivers nothing', lambda: ST.IterMessages(
+                            [b'$GPGGA,123519,4807.038,N,01131.000,E,1,08,0.9,545.4,M,46.9,M,,*47', b'',
+                             b'!AIVDM,2,1,3,A,55?MbV02;H;s<HtKR20EHE:0@T4@Dn2222222216L961O5Gf0NSQEp6ClRp8,0*1C']))):
+        got = _try(lambda: [1 for _ in FL.FilterChain([make_filter(x) for x in fspec.split('+')]).filter(empty())])
+        if got != []:
+            return 'READERS-DIFFER chain-over-%s=%s expected-nothing' % (what.replace(' ', '-'), got if isinstance(got, str) else
+                                                                        '%d messages' % len(got))
     # filters that were built for something else and then re-targeted through their public attributes
     rec = _try(lambda: '[' + ','.join(str(IDX[id(m)]) for m in FL.FilterChain(
         [make_filter(x, reconfigure=True) for x in fspec.split('+')]).filter(list(elems))) + ']')
